@@ -170,6 +170,13 @@ FAMILIES = {
                            dict(mode="sim", max_nodes=6, min_nodes=3, num=60000, depth=18, procs=12)]},
         shards=[["ds"], ["cached"], ["with"], ["fnapp"]],
         shard_defs={"ds": "SK_ds", "cached": "SK_cached", "with": "SK_with", "fnapp": "SK_leafish"}),
+    "tmplparams": dict(
+        consts=dict(Raises="NoRaises", Kinds="FTP_Kinds", Paths="FTP_Paths", Consts="None0", Tmpls="FTP_Tmpls",
+                    Fns="None0", Bodies="None0", DispVals="NoSeq", Preds="None0", Presets="FTP_Presets",
+                    MapPaths="None0", Leaves="FTP_Leaves"),
+        sharing=True,
+        runs={"quick": [dict(mode="bfs", max_nodes=3)], "thorough": [dict(mode="bfs", max_nodes=4)]},
+        shards=[["tmpl"]], shard_defs={"tmpl": "SK_tmpl"}),
     "illsorted": dict(
         consts=dict(Raises="NoRaises", Kinds="FI_Kinds", Paths="FI_Paths", Consts="FI_Consts", Tmpls="None0",
                     Fns="None0", Bodies="None0", DispVals="NoSeq", Preds="None0", Presets="None0",
@@ -243,7 +250,7 @@ FAMILIES = {
                     Fns="None0", Bodies="FO_Bodies", DispVals="NoSeq", Preds="FO_Preds", Presets="None0",
                     MapPaths="None0", Leaves="FO_Leaves"),
         sharing=False,
-        runs={"quick": [dict(mode="bfs", max_nodes=3)],
+        runs={"quick": [dict(mode="bfs", max_nodes=3, split=4)],
               "thorough": [dict(mode="bfs", max_nodes=4), dict(mode="sim", max_nodes=6, min_nodes=4, num=20000, depth=16, procs=12)]},
         runs_light={"quick": [dict(mode="bfs", max_nodes=2), dict(mode="sim", max_nodes=4, min_nodes=3, num=8000, depth=14, procs=8)],
                     "thorough": [dict(mode="bfs", max_nodes=3), dict(mode="sim", max_nodes=6, min_nodes=4, num=20000, depth=16, procs=12)]},
